@@ -1847,6 +1847,29 @@ func (j jump) exec(vm *vm) {
 	vm.pc += int(j)
 }
 
+// keyForError describes a property key in an error message without running script code
+// (the key is only converted after the base value has been checked).
+func keyForError(key Value) string {
+	if _, ok := key.(*Object); ok {
+		return "[object]"
+	}
+	return key.String()
+}
+
+// toElemKey converts the key of a keyed reference (stack: base, key) once, for operators that read and then
+// write the reference. A nullish base is rejected first, as it would be by the read.
+type _toElemKey struct{}
+
+func (_toElemKey) exec(vm *vm) {
+	if v := vm.stack[vm.sp-2]; v == _undefined || v == _null {
+		vm.throw(vm.r.NewTypeError("Cannot read property '%s' of undefined", keyForError(vm.stack[vm.sp-1])))
+		return
+	}
+	p := vm.sp - 1
+	vm.stack[p] = toPropertyKey(vm.stack[p])
+	vm.pc++
+}
+
 type _toPropertyKey struct{}
 
 func (_toPropertyKey) exec(vm *vm) {
@@ -2614,7 +2637,7 @@ func (_getElem) exec(vm *vm) {
 	v := vm.stack[vm.sp-2]
 	obj := v.baseObject(vm.r)
 	if obj == nil {
-		vm.throw(vm.r.NewTypeError("Cannot read property '%s' of undefined", vm.stack[vm.sp-1]))
+		vm.throw(vm.r.NewTypeError("Cannot read property '%s' of undefined", keyForError(vm.stack[vm.sp-1])))
 		return
 	}
 	propName := toPropertyKey(vm.stack[vm.sp-1])
@@ -2634,7 +2657,7 @@ func (_getElemRecv) exec(vm *vm) {
 	v := vm.stack[vm.sp-1]
 	obj := v.baseObject(vm.r)
 	if obj == nil {
-		vm.throw(vm.r.NewTypeError("Cannot read property '%s' of undefined", vm.stack[vm.sp-2]))
+		vm.throw(vm.r.NewTypeError("Cannot read property '%s' of undefined", keyForError(vm.stack[vm.sp-2])))
 		return
 	}
 	propName := toPropertyKey(vm.stack[vm.sp-2])
@@ -2672,7 +2695,7 @@ func (_getElemCallee) exec(vm *vm) {
 	v := vm.stack[vm.sp-2]
 	obj := v.baseObject(vm.r)
 	if obj == nil {
-		vm.throw(vm.r.NewTypeError("Cannot read property '%s' of undefined", vm.stack[vm.sp-1]))
+		vm.throw(vm.r.NewTypeError("Cannot read property '%s' of undefined", keyForError(vm.stack[vm.sp-1])))
 		return
 	}
 
@@ -2695,7 +2718,7 @@ func (_getElemRecvCallee) exec(vm *vm) {
 	v := vm.stack[vm.sp-2]
 	obj := v.baseObject(vm.r)
 	if obj == nil {
-		vm.throw(vm.r.NewTypeError("Cannot read property '%s' of undefined", vm.stack[vm.sp-1]))
+		vm.throw(vm.r.NewTypeError("Cannot read property '%s' of undefined", keyForError(vm.stack[vm.sp-1])))
 		return
 	}
 
